@@ -1,7 +1,7 @@
 (* C08 - lexicase filters by randomly ordered cases; winners are never dominated. *)
 From Coq Require Import List ZArith QArith.
 Import ListNotations.
-From UEC Require Import Base.Dist Ec.Select Ec.SelectProps Ec.LexProps.
+From UEC Require Import Base.Dist Ec.Select Ec.SelectProps Ec.LexProps Ec.TournamentCor.
 
 (* at each case exactly the candidates with the best result on that case remain *)
 Theorem C08_filter_keeps_best : forall pol pop c C i,
@@ -47,6 +47,11 @@ Theorem C08_zero_cases_uniform : forall pol pop, pop <> nil ->
   lexicase pol pop 0 = dbind (uniform (cons (@nil nat) nil)) (fun _ => dmap inl (uniform (seq 0 (length pop)))).
 Proof. exact lexicase_zero_cases. Qed.
 Print Assumptions C08_zero_cases_uniform.
+
+(* a single individual is returned with certainty, whatever the configured number of cases *)
+Theorem C08_singleton : forall pol r n, prob (lexicase pol [r] n) (is_idx 0) == 1.
+Proof. exact lexicase_singleton. Qed.
+Print Assumptions C08_singleton.
 
 Example C08_example :
   (* individual 0 is best on case 0, individual 1 on case 1, individual 2 is dominated by 0 *)
